@@ -320,3 +320,42 @@ func (c *Check) writeEvidence(verifDir string, started time.Time, nviol, ndis, n
 	}
 	return os.WriteFile(filepath.Join(dir, c.Property+".json"), append(b, '\n'), 0o644)
 }
+
+// Share runs another property's rule set on the same program and re-reports
+// the obligations of the selected rules under the current rule id: several
+// properties rest on the same structural fact (e.g. the shortcut table must be
+// coherent for C01, C09 and C10 alike).
+func (c *Check) Share(from string, rules []string, min int) {
+	f, ok := properties[from]
+	if !ok {
+		return
+	}
+	sub := NewCheck(c.P, from, c.Tier, c.Seed)
+	func() {
+		defer func() {
+			if r := recover(); r != nil {
+				c.Bad("shared:"+from, "?", fmt.Sprint("shared rule set panicked: ", r))
+			}
+		}()
+		f(sub)
+	}()
+	want := map[string]bool{}
+	for _, r := range rules {
+		want[from+"."+r] = true
+	}
+	n := 0
+	for _, o := range sub.Obs {
+		if !want[o.Rule] {
+			continue
+		}
+		n++
+		if o.Status == "violated" {
+			c.Bad(o.Construct+" ["+o.Rule+"]", o.Pos, o.How, o.Path...)
+		} else {
+			c.OK(o.Construct+" ["+o.Rule+"]", o.Pos, o.How, o.Inspected)
+		}
+	}
+	if n < min {
+		c.Bad("shared:"+from+":anchor-drift", "?", fmt.Sprintf("shared rules of %s produced %d obligations, expected at least %d", from, n, min))
+	}
+}
